@@ -13,7 +13,7 @@ from __future__ import annotations
 import ast
 
 from harness.common import TranslateError, src_text, ast_digest, SRC
-from translate import c08_keys, c08_norm, c08_parse
+from translate import c08_keys, c08_norm, c08_parse, c08_ctor
 
 KINDS = {'ent_id': 'KEnt', 'solid_id': 'KSolid', 'face_id': 'KFace', 'group_id': 'KGroup', 'vis_id': 'KVis',
          'node_id': 'KNode'}
@@ -208,6 +208,9 @@ def translate() -> tuple[str, dict]:
             ctor_trees[rel] = ast.parse(text)
     ctor_rows = c08_parse.ctor_census(ctor_trees)
     man_ok, man_side = c08_parse.manager_choice(trees['vmf.py'])
+    # round 5: the constructor of every ID-bearing class as a step list + the shape of its destructor
+    ctor_step_rows = c08_ctor.ctor_steps(trees['vmf.py'])
+    shallow_rows = c08_ctor.shallow_copy_rows(trees['vmf.py'], ctor_step_rows)
     lines = [
         '(* GENERATED by translate/c08_sites.py from /repo/src/srctools/vmf.py, instancing.py. Do not edit. *)',
         'From Coq Require Import ZArith List String.', 'Import ListNotations.', 'Open Scope string_scope.',
@@ -257,6 +260,11 @@ def translate() -> tuple[str, dict]:
         f'Definition managers_are_idman_unless_preserve_ids : bool := {"true" if man_ok else "false"}.',
         'Inductive parse_step := GPPlaceholder | GPWorld | GPDropPlaceholder | GPEntities | GPReleasePlaceholder.',
         'Definition parse_steps : list parse_step := [' + '; '.join(parse_prog) + '].',
+        *c08_ctor.coq_rows(ctor_step_rows),
+        '(* copy.copy() of an object of an ID class whose destructor releases: does it go through copy() / the constructor? *)',
+        'Definition shallow_copy_sites : list (kind * string * bool) := [',
+        ';\n'.join('  (%s, "%s: %s", %s)' % (k, c, d.replace('"', '""'), 'true' if ok else 'false') for k, c, ok, d in shallow_rows),
+        '].',
         '',
     ]
     side.update(releases=[list(r) for r in releases], acquires=[list(a) for a in acquires],
@@ -270,6 +278,8 @@ def translate() -> tuple[str, dict]:
     side.update(parse_side)
     side.update(man_side)
     side['helper_ctor_sites'] = [list(r) for r in ctor_rows]
+    side['ctor_classes'] = ctor_step_rows
+    side['shallow_copy_sites'] = [list(r) for r in shallow_rows]
     return '\n'.join(lines), side
 
 
